@@ -62,6 +62,8 @@ impl Primitive {
         match self {
             Primitive::Null => write!(out, "null")?,
             Primitive::Integer(i) => write!(out, "{}", i)?,
+            // a real is written with a PERIOD (ISO 32000-1 7.3.3); without one the token is an integer object
+            Primitive::Number(n) if n.fract() == 0.0 => write!(out, "{}.0", n)?,
             Primitive::Number(n) => write!(out, "{}", n)?,
             Primitive::Boolean(b) => write!(out, "{}", b)?,
             Primitive::String(ref s) => s.serialize(out)?,
